@@ -548,10 +548,17 @@ func (r *Run) statsVariants(s *Stats) {
 			if cs.Depth < 0 || cs.InFlightCount < 0 || cs.DeferredCount < 0 {
 				r.failf("[C13] negative channel counter in %s/%s", ts.Name, cs.Name)
 			}
+			var held int64
 			for _, k := range cs.Clients {
 				if k.InFlightCount < 0 || k.ReadyCount < 0 {
 					r.failf("[C13] negative client counter for %s on %s/%s: in_flight=%d ready=%d", k.ClientID, ts.Name, cs.Name, k.InFlightCount, k.ReadyCount)
 				}
+				held += k.InFlightCount
+			}
+			// (this reading was taken at a quiescent point) the connected consumers cannot hold more messages than the
+			// channel has in flight; what is in flight to a consumer that is gone is the channel's alone
+			if held > cs.InFlightCount {
+				r.failf("[C13] the consumers of %s/%s report %d messages in flight between them while the channel has %d in flight", ts.Name, cs.Name, held, cs.InFlightCount)
 			}
 		}
 	}
